@@ -26,6 +26,11 @@ CHECKS = {
    text='18 kernel-checked theorems about the core model: close() on an open websocket writes exactly one Close frame with the given code and reason and sets closing; every later send is refused with a WebSocketError and writes nothing; for EVERY configuration, application and environment script the trace of a connection contains at most one Close frame and no write at all after it (single_close_no_data_after, by an invariant proved for every function up to run()); a server Close yields Closing while sends are still accepted, then exactly one echo with the same code and reason, then EOF ends gracefully; a server Close after the client closed yields Closed, then closed, then a graceful Disconnected with the socket closed; messages are still delivered while closing. Tied to the code by 500 (quick) / 8000 (thorough) histories with close() at any event incl. before Ready, server Close variants, sends at any event, compared with the model and judged by wire-level rules written from the property.',
    note='Single-threaded histories only (threads: C12). The graceful-end theorems assume no timer fires in the same cycle (C15). Trusted: Lean kernel, core model validated differentially, simulated world.',
    ref='6 C08'),
+ 'C10': dict(
+   technique='Lean 4 proof (on_response over every parsed header table and challenge; lift to wire bytes for a conforming-reply generator; independent request parser; header limit from the generated constant) + three-layer differential correspondence + hashlib oracle',
+   text='26 kernel-checked theorems about the model of response.py / websocket.on_response / build_request and the header phase of the parser: Ready iff status = 101, lower(Upgrade) = websocket, accept present and equal to the challenge, extensions parse - for every header table (C10_ready_iff, strict comparison) and, for the comparison the code really performs, C10_ready_iff_present with the concrete witness C10_lenient_fails that a digest with swapped letter case is granted Ready (the recorded finding D5); the lift to wire bytes for any field order, name casing, optional whitespace and obs-fold (C10_ready_iff_wire); what Ready reports; the request read back by an independent parser is exactly GET resource HTTP/1.1 with the expected headers (C10_request_wellformed), key = base64 of the n-th random draw with round trip (C10_fresh_key, C10_key_roundtrip); header blocks above the generated 16384-byte limit, terminated or not, give the parse error; segmentation of the reply; consequences of not being Ready (Rejected / ProtocolError, socket closed, no Ready or message events) for every application. Tied to the code in three layers: Response+on_response, the request actually written by connect() on one object over several connects, whole connections through the simulated world; oracle: hashlib digest of the key parsed out of the request really written + independent RFC 7230/7692 readers.',
+   note='KNOWN FINDING (open, recorded in known_findings.json, class accept-case-insensitive): the accept value is compared case-insensitively; cannot be repaired without editing the repository tests. SHA-1/base64 of the digest is a parameter (challenge) in the theorems; int() status forms like +101 are accepted by code and model alike and are outside the oracle. Trusted: Lean kernel, translator (header separator/limit, WS version), correspondence harness, hashlib.',
+   ref='6 C10'),
  'C13': dict(
    technique='Lean 4 proof (post-condition of run() for every configuration, environment script and application, by composition of per-function state relations) + differential correspondence',
    text='Kernel-checked theorem abandon_releases: in the model of session.run() with all its generators, try/except/finally clauses and the GeneratorExit raised at whichever yield the consumer stops at, the connection always ends with socket and selector closed - for every configuration, every server behaviour and fault, every application reaction including abandoning at any event by any mechanism. A second theorem exhibits the leak of the pinned commit (abandon at Connected). The model is tied to the code by abandoning the real generator at every event index of many scenarios by close(), break+drop, exception in the handler and exception leaving a with-block, and comparing trace and final socket/selector state with the model; an independent oracle checks the simulated socket and selector were closed.',
